@@ -1,0 +1,38 @@
+//go:build verif
+
+// Contracts for govc (contract-based deductive verification); comment-only, compiled only with -tags verif.
+package grpc
+
+// ---- wire conversion (C10): every field the commitments cover arrives unchanged in the protobuf message; the global
+// index is sent as the 32-byte big-endian form of the same canonical value the commitments hash.
+
+//@ func leafTypeToProto
+//@   trusted
+//@   modifies nothing
+
+//@ func convertToProtoSiblings
+//@   props C10
+//@   modifies nothing
+//@   ensures[one-per-sibling-in-order] len(result) == 32 && forall(k, 0, 32, result[k] != nil && len(result[k].Value) == 32 && seq(result[k].Value) == hb(siblings[k]))
+//@   loop 0 invariant 0 <= rangeindex + 1 && rangeindex + 1 <= 32 && len(protoSiblings) == 32 && off(protoSiblings) == 0 && fresh(ref(protoSiblings))
+//@   loop 0 invariant forall(k, 0, rangeindex + 1, protoSiblings[k] != nil && fresh(protoSiblings[k]) && len(protoSiblings[k].Value) == 32 && seq(protoSiblings[k].Value) == hb(siblings[k]))
+
+//@ func convertToProtoBridgeExit
+//@   props C10
+//@   requires be != nil ==> be.TokenInfo != nil
+//@   modifies nothing
+//@   ensures[nil] be == nil ==> result == nil
+//@   ensures[fields] be != nil ==> result != nil && result.DestNetwork == be.DestinationNetwork && result.DestAddress != nil && seq(result.DestAddress.Value) == ab(be.DestinationAddress) && result.TokenInfo != nil && result.TokenInfo.OriginNetwork == be.TokenInfo.OriginNetwork && result.TokenInfo.OriginTokenAddress != nil && seq(result.TokenInfo.OriginTokenAddress.Value) == ab(be.TokenInfo.OriginTokenAddress)
+//@   ensures[amount] (be != nil && be.Amount != nil && 0 <= bigval(be.Amount) && bigval(be.Amount) < 115792089237316195423570985008687907853269984665640564039457584007913129639936) ==> result.Amount != nil && len(result.Amount.Value) == 32 && bytesOf(seq(result.Amount.Value), 32) == beNB(bigval(be.Amount), 32)
+//@   ensures[metadata] (be != nil && len(be.Metadata) == 32) ==> result.Metadata != nil && len(result.Metadata.Value) == 32 && seq(result.Metadata.Value) == hb(hashOf(seq(be.Metadata)))
+//@   ensures[no-metadata] (be != nil && len(be.Metadata) == 0) ==> result.Metadata == nil
+
+//@ func convertToProtoImportedBridgeExit
+//@   props C10 C19
+//@   requires ibe != nil ==> ibe.GlobalIndex != nil && (ibe.BridgeExit != nil ==> ibe.BridgeExit.TokenInfo != nil)
+//@   requires (ibe != nil && typeIs(ibe.ClaimData, *types.ClaimFromMainnnet)) ==> cast(ibe.ClaimData, *types.ClaimFromMainnnet).ProofLeafMER != nil && cast(ibe.ClaimData, *types.ClaimFromMainnnet).ProofGERToL1Root != nil && cast(ibe.ClaimData, *types.ClaimFromMainnnet).L1Leaf != nil && cast(ibe.ClaimData, *types.ClaimFromMainnnet).L1Leaf.Inner != nil
+//@   requires (ibe != nil && typeIs(ibe.ClaimData, *types.ClaimFromRollup)) ==> cast(ibe.ClaimData, *types.ClaimFromRollup).ProofLeafLER != nil && cast(ibe.ClaimData, *types.ClaimFromRollup).ProofLERToRER != nil && cast(ibe.ClaimData, *types.ClaimFromRollup).ProofGERToL1Root != nil && cast(ibe.ClaimData, *types.ClaimFromRollup).L1Leaf != nil && cast(ibe.ClaimData, *types.ClaimFromRollup).L1Leaf.Inner != nil
+//@   modifies nothing
+//@   ensures[nil] ibe == nil ==> result0 == nil && result1 == nil
+//@   ensures[global-index-canonical] (ibe != nil && result1 == nil) ==> result0 != nil && result0.GlobalIndex != nil && len(result0.GlobalIndex.Value) == 32 && bytesOf(seq(result0.GlobalIndex.Value), 32) == beNB(giVal(ibe.GlobalIndex.MainnetFlag, ibe.GlobalIndex.RollupIndex, ibe.GlobalIndex.LeafIndex), 32)
+//@   ensures[unknown-claim-kind-refused] (ibe != nil && !typeIs(ibe.ClaimData, *types.ClaimFromMainnnet) && !typeIs(ibe.ClaimData, *types.ClaimFromRollup)) ==> result1 != nil && result0 == nil
